@@ -7,7 +7,7 @@ from sa import cbor_mini
 from sa.absint import Evaluator, all_effects
 from sa.index import AnalysisError
 from sa.terms import App, Const, Ref, Sym, cases, cat_parts, dict_pairs, list_items, subterms
-from . import argname
+from . import argname, generic
 from .layout import find_effect_calls, seg_len
 
 EXPLANATION = ("abstract evaluation of the encryptor, the file KMS and the CLI writers: the hard-coded AAD literal is "
@@ -185,6 +185,9 @@ def run(ctx):
         key_ok = isinstance(key, App) and key.op == "filebytes" and any(s == P("key_name") for s in subterms(key))
         R.check("C06-D2 provenance", key_ok, f"{impl.name}.encrypt: key = whole content of the named key file", mod=fi.module,
                 node=a.node, function=ctx.fq(fi), expected="AESGCM(<bytes of keys_directory/key_name.bin>)", found=repr(key)[:200])
+    R.rule("C06-D2c key file", 2, "the AES key is read from keys_directory/<key name>.bin, the same file for every read of the call")
+    for impl in kms_impls(ctx):
+        generic.key_file_rule(ctx, "C06-D2c key file", impl, "encrypt")
     eag = repo.func(ENC, "Encryptor.encrypt_and_generate")
     eouts = [o for o in ev0.outcomes(eag) if o.kind == "return"]
     if len(eouts) != 1:
@@ -373,6 +376,7 @@ def raw_form_rule(ctx):
     R = ctx.report
     repo = ctx.repo
     S = ctx.schema
+    generic.cli_converters(ctx, "C06-D3d CLI converters", "suit_generator.cmd_encrypt", 8)
     R.rule("C06-D5 raw encryption info accepted unchanged", 4, "file content loses exactly one bstr layer on load and regains exactly one on encode")
     fi = repo.func("suit_generator.suit.security", "SuitEncryptionInfoExt.from_obj")
     ev = Evaluator(repo, inline_depth=0)
